@@ -170,6 +170,46 @@ def run(prog: Program, rep, tier="quick"):
            "as `have`: the server omits it and everything below it, leaving the client with a parent it does not hold",
            g.nodes[rets[0]].line)
     rep.floor("R05.4", 3)
+    # ---- R05.6 what is sent is decided from what the peer ADVERTISED / acknowledged, and the completed pack contains every
+    # external base the indexer asked for
+    rep.rule("R05.6", "the pusher never probes the receiver's object store to skip a want; the thin-pack bases handed to extend_pack are the "
+                      "indexer's external refs, unfiltered; the shallow boundary the finder uses excludes the not-shallow commits")
+    cm = prog.module("dulwich/client.py")
+    sp = cm.funcs.get("LocalGitClient.send_pack")
+    if sp is None:
+        raise AnalysisError("LocalGitClient.send_pack not found")
+    wl = [lp for lp in ast.walk(sp.node) if isinstance(lp, ast.For) and any(isinstance(c, ast.Call) and isinstance(c.func, ast.Attribute) and c.func.attr == "append"
+                                                                             and norm(c.func.value) == "want" for c in ast.walk(lp))]
+    if not wl:
+        raise AnalysisError("LocalGitClient.send_pack: the loop that collects `want` was not found")
+    probes = [x for lp in wl for x in ast.walk(lp) if isinstance(x, ast.Compare) and isinstance(x.ops[0], (ast.In, ast.NotIn)) and "object_store" in norm(x.comparators[0])]
+    rep.ob("R05.6", cm.rel, sp.qual, "no want is skipped because the object is found in the receiver's object store", not probes,
+           f"`{norm(probes[0], 60)}`: the presence of one object (possibly unreachable garbage without its closure) stands in for the whole "
+           f"history - the ref is moved and nothing is sent" if probes else "", probes[0].lineno if probes else sp.node.lineno)
+    cpk = prog.func(OS_PY, "DiskObjectStore._complete_pack")
+    pn = [a.arg for a in cpk.node.args.args]
+    ext = next((p_ for p_ in pn if "ext" in p_), None)
+    rebound = [x for x in ast.walk(cpk.node) if isinstance(x, ast.Name) and x.id == ext and isinstance(x.ctx, ast.Store)]
+    ecall = [c for c in ast.walk(cpk.node) if isinstance(c, ast.Call) and callee_name(c) == "extend_pack"]
+    rep.ob("R05.6", OS_PY, cpk.qual, f"extend_pack receives the parameter `{ext}` as it came from the indexer", bool(ext) and bool(ecall) and not rebound
+           and any(isinstance(a, ast.Name) and a.id == ext for a in ecall[0].args + [k.value for k in ecall[0].keywords]),
+           f"`{ext}` is re-bound (filtered) before extend_pack: a base that is left out stays external, the installed pack is still thin and its "
+           f"deltas cannot be resolved from the pack alone", rebound[0].lineno if rebound else cpk.node.lineno)
+    sm = prog.module("dulwich/server.py")
+    hs = sm.funcs.get("_ProtocolGraphWalker._handle_shallow_request")
+    if hs is None:
+        raise AnalysisError("_ProtocolGraphWalker._handle_shallow_request not found")
+    upd = [c for c in ast.walk(hs.node) if isinstance(c, ast.Call) and norm(c.func) == "self.shallow.update"]
+    fs = [s_ for s_ in ast.walk(hs.node) if isinstance(s_, ast.Assign) and isinstance(s_.value, ast.Call) and callee_name(s_.value) == "find_shallow"
+          and isinstance(s_.targets[0], ast.Tuple) and len(s_.targets[0].elts) == 2]
+    ok7 = False
+    if upd and fs:
+        sh, nsh = (e.id for e in fs[0].targets[0].elts)
+        a0 = upd[0].args[0] if upd[0].args else None
+        ok7 = isinstance(a0, ast.BinOp) and isinstance(a0.op, ast.Sub) and norm(a0.left) == sh and norm(a0.right) == nsh
+    rep.ob("R05.6", sm.rel, hs.qual, "the boundary set the object finder uses is `shallow - not_shallow`", ok7,
+           "commits that are reachable above the depth limit on another path stay in the boundary set the finder and the parents provider use: "
+           "they are announced as not shallow but cut off, and never sent", upd[0].lineno if upd else hs.node.lineno)
     # ---- R05.5 "apart from tags it follows automatically at the client's request, nothing outside the closure"
     rep.rule("R05.5", "automatic tag following only at the client's request: the tag map is non-empty only behind the include-tag capability; "
                       "a tag is enqueued only for an object that is itself being sent")
@@ -198,6 +238,42 @@ def run(prog: Program, rep, tier="quick"):
     fm = prog.func(OS_PY, "MissingObjectFinder.__init__")
     rep.ob("R05.5", OS_PY, fm.qual, "the tag map comes from the caller's get_tagged (empty when none is given)",
            "self._tagged = get_tagged and get_tagged() or {}" in norm(fm.node, 200000), "", fm.node.lineno)
+    r05_7(prog, rep)
     rep.floor("R05.3", 7)
     rep.floor("R05.1", 3)
     rep.floor("R05.2", 5)
+
+
+def r05_7(prog: Program, rep):
+    """SCENARIO MUST-PRECEDE.  In protocol v0/v1 the server sends the shallow-update section right after the request,
+    before the negotiation.  Under the scenario {deepening fetch, protocol_version != 2, stateful transport (can_read
+    given)} every path of _handle_upload_pack_head to a read inside the have loop (the ACK poll) passes
+    _read_shallow_updates first - otherwise the poll consumes `shallow <sha>` lines as if they were uninteresting ACK
+    traffic and the boundary commit is never recorded (F05.1)."""
+    from sa.common import scenario_edge_filter
+    from sa.flow import reaching_defs
+    rep.rule("R05.7", "SCENARIO MUST-PRECEDE: in a stateful v0/v1 deepening fetch the shallow-update section is read before the first ACK poll of the have loop")
+    f = prog.func("dulwich/client.py", "_handle_upload_pack_head")
+    g = cfg_of(prog, f)
+    rd = reaching_defs(g)
+
+    def atoms(e):
+        t = norm(e)
+        table = {"depth not in (0, None)": True, "depth is not None": True, "depth": True, "depth is None": False, "depth in (0, None)": False,
+                 "protocol_version != 2": True, "protocol_version == 2": False, "2 != protocol_version": True, "2 == protocol_version": False,
+                 "can_read is not None": True, "can_read is None": False, "can_read": True,
+                 "shallow_since is not None": False, "shallow_since is None": True, "shallow_exclude": False, "shallow_since": False}
+        return table.get(t)
+    edge_ok, decided = scenario_edge_filter(g, rd, atoms)
+    loops = [l for l in ast.walk(f.node) if isinstance(l, ast.While)]
+    polls = [i for i, n in g.nodes.items() for c in node_calls(n) if callee_name(c) == "read_pkt_line"
+             and any(any(x is c for x in ast.walk(l)) for l in loops)]
+    reads = [i for i, n in g.nodes.items() for c in node_calls(n) if callee_name(c) == "_read_shallow_updates"]
+    if not polls or not reads or len(decided) < 2:
+        raise AnalysisError(f"_handle_upload_pack_head: ACK poll in the have loop ({len(polls)}), _read_shallow_updates ({len(reads)}) or the "
+                            f"scenario tests ({len(decided)}) not found")
+    bad = must_pass(g, polls, reads, edge_ok=edge_ok)
+    rep.ob("R05.7", "dulwich/client.py", f.qual, "the shallow-update section is read before the have loop polls for ACKs (deepening, v0/v1, stateful)",
+           not bad, "the poll `if can_read(): pkt = proto.read_pkt_line()` is reachable before _read_shallow_updates: a `shallow <sha>` line the server has "
+           "already sent is read there and dropped as 'not an ACK'; the fetched tip keeps a missing parent without being recorded as shallow",
+           g.nodes[(bad or polls)[0]].line)
